@@ -1267,6 +1267,13 @@ func (vc *FnVC) frameObligations(f *frame, guard string, st0, st1 *state, mods [
 				conds = append(conds, not(eq(r, l)))
 			}
 			vc.oblige(kind, label, and(guard, and(conds...)), eq("(select "+t1+" "+r+")", "(select "+t0+" "+r+")"), f.fn.Pos(), "frame: "+k+" unchanged outside the modifies clause", props)
+		} else if strings.HasPrefix(so, "(Array Iface ") {
+			// a ghost map keyed by interface values (per-object ghost state of library objects): like a field, it
+			// is framed for the objects that existed on entry — what a function records about objects it allocates
+			// itself is not an effect its caller can observe
+			r := vc.fresh("fi", "Iface")
+			existed := or(eq("(iref "+r+")", "nil"), "(select "+vc.hget(st0, vc.allocKey())+" (iref "+r+"))")
+			vc.oblige(kind, label, and(guard, existed), eq("(select "+t1+" "+r+")", "(select "+t0+" "+r+")"), f.fn.Pos(), "frame: "+k+" unchanged for the objects that existed on entry", props)
 		} else {
 			if len(scalarRef) > 0 && scalarRef[0] != nil {
 				// loop frame of a scalar (ghost / global): the body leaves it as it was on loop entry
